@@ -7,6 +7,7 @@
 
 #include <cstdint>
 #include <cstdio>
+#include <functional>
 #include <initializer_list>
 #include <map>
 #include <sstream>
@@ -97,8 +98,8 @@ template <typename T, typename... R>
 void stream_all(std::ostringstream& os, const T& t, const R&... r) { os << t; ((os << " " << r), ...); }
 } // namespace detail
 
-using TargetFn = void (*)(Src&, Stats&);
-using InitFn = void (*)();
+using TargetFn = std::function<void(Src&, Stats&)>;
+using InitFn = std::function<void()>;
 
 struct TargetInfo {
     std::string name;
@@ -111,9 +112,9 @@ struct TargetInfo {
 
 std::map<std::string, TargetInfo>& registry();
 struct Registrar {
-    Registrar(const char* name, TargetFn fn, InitFn init, const char* rule, size_t min_len, size_t max_len)
+    Registrar(const std::string& name, TargetFn fn, InitFn init, const std::string& rule, size_t min_len, size_t max_len)
     {
-        registry()[name] = TargetInfo{name, fn, init, rule, min_len, max_len};
+        registry()[name] = TargetInfo{name, std::move(fn), std::move(init), rule, min_len, max_len};
     }
 };
 
